@@ -426,7 +426,28 @@ def read_state(root_dir: str, rseed: int):
             out["boxes"][key] = {
                 "uv": info["uidvalidity"], "uidnext": info["uidnext"],
                 "msgs": [[x["uid"], x["tag"], sorted(f for f in x["flags"] if f.lower() != "\\recent")] for x in info["msgs"]],
+                "qname": nm,
             }
+        # ... and once more after an orderly restart: what the recovery has told a client must stay true when the
+        # mailboxes are loaded from the database again (seeded/C11-4: keys and uids that only mis-pair on the
+        # second load)
+        try:
+            await w.restart()
+        except BaseException as e:  # noqa
+            out["second_boot"] = f"{type(e).__name__}: {e}"
+            return
+        o = w.session("o-second")
+        for key, bx in out["boxes"].items():
+            if "error" in bx:
+                continue
+            info = await observe_mailbox(o, quote(bx["qname"]))
+            if not o.alive:
+                nsess[0] += 1
+                o = w.session(f"o2-{nsess[0]}")
+            if info is None or info.get("fetch_status") not in (None, "OK"):
+                bx["second"] = "cannot be read after a second (orderly) restart"
+                continue
+            bx["second"] = {"uv": info["uidvalidity"], "msgs": [[x["uid"], x["tag"]] for x in info["msgs"]]}
 
     try:
         w.run(main(), budget=3_000_000)
@@ -740,9 +761,22 @@ def execute(trace) -> CaseResult:
             if not isinstance(got.get("list"), dict):
                 v("C11.recover.list", f"{what}: {got.get('list')}", k, sig)
                 continue
+            if got.get("second_boot"):
+                v("C11.recover.start-fails", f"{what}: the recovered server stops and starts once more and then fails: {got['second_boot'][:300]}", k, sig)
             for b, g in got["boxes"].items():
                 if "error" in g:
                     v("C11.recover.unselectable", f"{what}: mailbox {b!r}: {g['error']}", k, sig)
+                    continue
+                sec = g.get("second")
+                if isinstance(sec, str):
+                    v("C11.recover.unselectable", f"{what}: mailbox {b!r}: {sec}", k, sig)
+                elif isinstance(sec, dict) and sec.get("uv") == g.get("uv"):
+                    first = {m[0]: m[1] for m in g["msgs"]}
+                    second = {m[0]: m[1] for m in sec["msgs"]}
+                    for uid, tag in first.items():
+                        if uid in second and second[uid] != tag and tag is not None and second[uid] is not None:
+                            v("C11.uid.rebound", f"{what}: after the restart ({b}, UIDVALIDITY {g.get('uv')}, UID {uid}) was shown as {tag}; after one more (orderly) restart it names {second[uid]}", k, sig)
+                            break
             if kind != "history":
                 continue
             prev, nxt = S.get(j), S.get(min(j + 1, nacks))
